@@ -134,7 +134,9 @@ class API:
             elif c < 0.95:
                 x = r.choice([0.0, 1.0, lo / 2, hi * 2, 4800.0, 9600.0, 5000.0, 10400.0])
             else:
-                x = r.choice([1e-30, 3e38, -lo])
+                # special values as bit patterns: quiet/signalling NaN, infinities, negative zero, a subnormal
+                return [str(r.choice([0x7fc00000, 0xffc00000, 0x7f800001, 0x7f800000, 0xff800000, 0x80000000, 0x00000001,
+                                      f32bits(1e-30), f32bits(3e38), f32bits(-lo)]))]
             return [str(f32bits(x))]
         if k == 'bytes':
             n = r.choice([spec[1], 1, 2, 30, 31, 32, 62, 63, 64, 65, 66, 94, 255, r.randint(spec[1], spec[2]), r.randint(spec[1], min(spec[2], 40))])
@@ -356,7 +358,7 @@ class Scripts:
             elif k == 'f32':
                 lo, hi = s[1], s[2]
                 xs = [lo, hi, bits_f32(f32bits(lo) - 1), bits_f32(f32bits(hi) + 1), (lo + hi) / 2, 4800.0, 9600.0, 50000.0, 5000.0]
-                lists.append([[str(f32bits(x))] for x in xs])
+                lists.append([[str(f32bits(x))] for x in xs] + [[str(b)] for b in (0x7fc00000, 0x7f800000, 0xff800000, 0x80000000)])
             elif k == 'bytes':
                 lists.append([[self.api.bytes_hex(n)] for n in (0, 1, 2, 63, 64, 65, 255) if s[1] <= n <= s[2]])
             else:
